@@ -134,106 +134,10 @@ def r2(ctx):
 
 
 def r3(ctx):
-    """one output row per partition, aggregates over that partition, key values bound by position"""
-    import sem
-    hir = ctx.anchor_hir(LSR)
-    locs = Locals(hir)
-    its = [it for it in find_iterations(hir) if "buffer_partitions" in render(it["iter"])]
-    if len(its) != 1:
-        ctx.violation("anchor/group-loop", LSR, "per-partition loop not found")
-        raise Abort()
-    it = its[0]
-    ms, root = chain_methods(it["iter"])
-    ok = not (set(ms) & FILTERS)
-    body = it["body"]
-    pushes = [c for c in walk_exprs(body) if c["k"] == "MCall" and c["m"] == "push" and render(c["recv"]) == "results"]
-    ok = ok and len(pushes) == 1 and not any(t[0] in ("if", "loop") for t in guards_of(body, pushes[0]))
-    ctx.obligation(ok)
-    if not ok:
-        ctx.violation("groups/one-row-per-partition", ctx.where(LSR, it["node"]), "every partition must yield exactly one result row")
-    # partitions come from partition_output_buffer over the whole buffer
-    ok = len(calls_to(hir, PART)) == 1
-    ctx.obligation(ok)
-    if not ok:
-        ctx.violation("groups/partition-call", ctx.where(LSR), "grouped output must be computed from partition_output_buffer")
-    # the loop variable is a (key values, rows) pair: either one binder used as f.0 / f.1 or a destructuring pattern
-    binders = pat_binders(it["pat"])
-    blocs = Locals(body)
-
-    def component(n):
-        """0 / 1: which component of the partition pair an expression is rooted in"""
-        n = peel(blocs.chase(n))
-        while n["k"] in ("MCall", "Index", "Cast", "Un"):
-            n = peel(blocs.chase(n["recv"] if n["k"] == "MCall" else n["e"]))
-        if n["k"] == "Field" and n["name"] in ("0", "1"):
-            base = peel(blocs.chase(n["e"]))
-            if base["k"] == "Path" and base.get("rk") == "Local" and base["res"] in binders[:1]:
-                return int(n["name"])
-        if n["k"] == "Path" and n.get("rk") == "Local" and len(binders) == 2 and n["res"] in binders:
-            return binders.index(n["res"])
-        return None
-    # aggregates are evaluated over the partition's rows
-    ev = [c for c in walk_exprs(body) if c["k"] == "MCall" and c["m"] == "get_column_expr_value"]
-    ok = len(ev) == 1 and render(ev[0]["args"][0]).endswith("None")
-    if ok:
-        a3 = peel(ev[0]["args"][3], methods=False)
-        ok = a3["k"] == "Call" and a3.get("ctor") and short(a3["callee"], 1) == "Some" and component(a3["args"][0]) == 1
-    ctx.obligation(ok)
-    if not ok:
-        ctx.violation("groups/aggregate-scope", ctx.where(LSR, body), "a group's columns must be evaluated over that group's rows only (buffer_data = the partition)")
-    # key columns: file_map[k_i] = partition key component i
-    ins = [c for c in walk_exprs(body) if c["k"] == "MCall" and c["m"] == "insert" and render(c["recv"]) == "file_map"]
-    ok = len(ins) == 1
-    if ok:
-        key_its = [i2 for i2 in find_iterations(body) if "group_keys" in render(i2["iter"]) and "enumerate" in render(i2["iter"]) and
-                   any(y is ins[0] for y in walk_exprs(i2["body"]))]
-        ok = len(key_its) == 1 and len(pat_binders(key_its[0]["pat"])) == 2
-        if ok:
-            i_id, k_id = pat_binders(key_its[0]["pat"])
-            gets = [c for c in walk_exprs(ins[0]["args"][1]) if c["k"] == "MCall" and c["m"] == "get"]
-            idx = [c for c in walk_exprs(ins[0]["args"][1]) if c["k"] == "Index"]
-            kexpr = peel(ins[0]["args"][0])
-            ok = kexpr["k"] == "Path" and kexpr.get("res") == k_id and \
-                ((len(gets) == 1 and component(gets[0]["recv"]) == 0 and peel(gets[0]["args"][0]).get("res") == i_id) or
-                 (len(idx) == 1 and component(idx[0]["e"]) == 0 and peel(idx[0]["i"]).get("res") == i_id))
-    ctx.obligation(ok)
-    if not ok:
-        ctx.violation("groups/key-binding", ctx.where(LSR, body), "the i-th grouping expression must be bound to the i-th component of the partition key")
-    gk = [x for x in walk(hir) if x["k"] == "Let" and x["pat"].get("name") == "group_keys"]
-    ok = len(gk) == 1 and render(chain_methods(gk[0]["init"])[1]) == "self.query.grouping_fields" and not (set(chain_methods(gk[0]["init"])[0]) & FILTERS)
-    ctx.obligation(ok)
-    if not ok:
-        ctx.violation("groups/key-names", ctx.where(LSR), "group key names must be the texts of all grouping expressions, in order")
-    # ordering of group rows: ascending keys compare a with b, descending ones b with a, for numbers and for text alike
-    sb = [c for c in walk_exprs(hir) if c["k"] == "MCall" and c["m"] == "sort_by"]
-    ok = len(sb) == 1
-    if ok:
-        cl = peel(sb[0]["args"][0], methods=False)
-        ok = cl["k"] == "Closure" and len(cl.get("params") or []) == 2
-    if ok:
-        a_id, b_id = [pat_binders(p_)[0] if pat_binders(p_) else None for p_ in cl["params"]]
-        slocs = Locals(sb[0])
-
-        def is_direction(c):
-            r = render(slocs.chase(peel(c, methods=False)))
-            return "directions[" in r or "directions.get(" in r or "ordering_asc" in r
-        ifs = find_ifs(sb[0], is_direction)
-        ok = len(ifs) >= 2
-        for x, asc, desc in ifs:
-            if asc is None or desc is None:
-                ok = False
-                continue
-            t, e = peel_result(asc), peel_result(desc)
-            okx = t["k"] == "MCall" and t["m"] in ("cmp", "partial_cmp") and e["k"] == "MCall" and e["m"] == t["m"]
-            if okx:
-                okx = sem.root_res(t["recv"], slocs) == a_id and sem.root_res(t["args"][0], slocs) == b_id and \
-                    sem.root_res(e["recv"], slocs) == b_id and sem.root_res(e["args"][0], slocs) == a_id
-            ok = ok and okx
-    ctx.obligation(ok)
-    if not ok:
-        ctx.violation("groups/ordering-direction", ctx.where(LSR), "group rows must be compared a-vs-b for ascending keys and b-vs-a for descending ones, for numbers and for text alike")
-    ctx.covered("grouped output loop (row per partition, aggregate scope, key binding, key names, ordering direction)", 6,
-                distinct_keys=["row", "call", "scope", "binding", "names", "direction"])
+    """one row per group, evaluated over that group's rows with the key columns bound by position; ordering of group rows:
+    the output phase of list_search_results evaluated on its scenario table (rules/lsr.py)"""
+    import lsr
+    lsr.output_phase(ctx)
 
 
 RULES = [
